@@ -776,4 +776,41 @@ Proof.
   intros. eapply sys_never_stale_partial_l; eauto. eapply handles_enqueued_once_l; eauto.
 Qed.
 
+(* ---------- none after unregister, on the system's queue ---------- *)
+
+Lemma reg_once_after : forall h (pre : list cb_event) x post tok,
+  reg_once h (pre ++ x :: post) -> In (EvReg h tok) pre -> no_reg h post.
+Proof.
+  induction pre as [|e pre IH]; intros x post tok Ho Hin; [destruct Hin|].
+  cbn in Ho. destruct Hin as [->|Hin].
+  - cbn in Ho. rewrite N.eqb_refl in Ho. unfold no_reg in *. rewrite forallb_app in Ho.
+    apply andb_true_iff in Ho. destruct Ho as [_ Ho]. cbn in Ho. apply andb_true_iff in Ho. tauto.
+  - destruct (reg_of h e) eqn:E.
+    + (* e registers h as well: then nothing after it may, but tok's registration is there *)
+      exfalso. unfold no_reg in Ho. rewrite forallb_app in Ho. apply andb_true_iff in Ho. destruct Ho as [Ho _].
+      rewrite forallb_forall in Ho. specialize (Ho _ Hin). cbn in Ho. rewrite N.eqb_refl in Ho. discriminate.
+    + eapply IH; eauto.
+Qed.
+
+(* every schedule: once the callback goroutine has taken the unregister event
+   of a handle h whose registration it had processed, the ack is what it emits
+   at that point and nothing it does afterwards is an invocation of h *)
+Theorem sys_none_after_unregister_l : forall inits watching s0 ls s h a tok pre post,
+  snd (sys_init stack verify p inits watching) = Ok s0 -> run s0 ls = Some s ->
+  taken_of (s_log s) = pre ++ EvUnreg h a :: post -> In (EvReg h tok) pre ->
+  exists rest,
+    cb_hist (s_log s) ++ rest =
+      outs cb_init pre ++ [OAck a] ++ outs (after cb_init (pre ++ [EvUnreg h a])) post /\
+    existsb (is_user_inv_of h) (outs (after cb_init (pre ++ [EvUnreg h a])) post) = false.
+Proof.
+  intros inits watching s0 ls s h a tok pre post H0 Hr Ht Hin.
+  destruct (callback_history_is_fold_l inits watching s0 ls s H0 Hr) as [Q1 [rest Hh]].
+  pose proof (handles_enqueued_once_l inits watching s0 ls s h H0 Hr) as Ho.
+  rewrite Q1, Ht in Ho. apply reg_once_prefix in Ho.
+  pose proof (reg_once_after h pre (EvUnreg h a) post tok Ho Hin) as Hn.
+  exists rest. split.
+  - rewrite Hh, Ht. apply outs_unreg_split.
+  - apply none_after_unregister_l. exact Hn.
+Qed.
+
 End Proofs.
